@@ -512,6 +512,7 @@ pub fn run_c02(o: &Opts) -> Report {
                 continue;
             };
             let in_dom = dom.vocab_ok(&x);
+            cx.push(format!("LVocabC {} {} {}", fm.idx, clnarsese(&x), cbool(in_dom)), format!("vocab_ok[{}] {:?}", fm.name, x));
             if intended && !in_dom {
                 cx.rep.hist.add(format!("{}:generator-left-domain", fm.name));
             }
